@@ -197,6 +197,8 @@ empty @is_you(int a, int b) {
   int u = side(a + 1) ?? 5; write(u); write(g);
   if (side(a) ?? b) { write('T'); } else { write('F'); }
   write(g);
+  int l1 = 5 ?? side(b); write(l1); write(g); int l2 = a ?? side(b); write(l2); write(g);
+  write((side(a) ?? b) * 2 + (side(a) ?? side(b))); write(g); write((a ?? b) - (b ?? a));
 }''', [[a, b] for a in (0, 1, 5, 4, 256) for b in (0, 1, 5)]),
     ('spec_in_handler', '''int g = 0;
 int side(int v) { g += 1; write('s'); return v; }
@@ -484,6 +486,9 @@ empty @is_you(int n) { int[] a = [1, 2, 3]; byte b[n]; for (int i = 0; i < n; i 
      [[0], [7], [-7], [12345], [-32768]]),
     ('recursion', '''int depth(int n) { int[] pad = [n, n]; if (n <= 0) { return 0; } return depth(n - 1) + pad[1]; }
 empty @is_you(int n) { write(depth(n)); }''', [[0], [1], [3]]),
+    ('recursion_no_locals', '''int depth(int n) { if (n <= 0) { return 0; } return depth(n - 1) + 1; }
+int twice(int n) { return depth(n) + depth(n - 1); }
+empty @is_you(int n) { int[] guard = [7, 8]; write(twice(n)); write(guard[0]); write(guard[1]); }''', [[0], [1], [4], [9]]),
     ('nested_literal_calls', '''int id(int v) { int[] t = [v, v, v]; return t[2]; }
 empty @is_you(int n) { int[] a = [id(n), id(n + 1), [id(2), 4][1]]; write(a[0]); write(a[1]); write(a[2]); bool[] f = [n > 0, id(n) > 1, true, false, true, false, true, false, n == 3]; write(f[8]); }''', [[0], [3]]),
     ('byte_deepest', '''empty put(byte c) { write(c); }
